@@ -91,6 +91,11 @@ E2E = {
                                                                  interp="interpretation\n  ignore Lat disappointment\nend\n"), False),
     "case-sibling-auditors-clause-for-the-lower-case-one": (dict(aud="  Lat expects always: [x s] < 5\n  lat expects always: [x s] < 50",
                                                                 interp="interpretation\n  ignore lat disappointment\nend\n"), True),
+    # an auditor whose very first report is a satisfaction (and that stays satisfied)
+    "first-report-is-a-satisfaction-foul-upon": (dict(aud="  al expects eventually: t >= 0",
+                                                     interp="interpretation\n  foul upon al satisfaction\nend\n"), True),
+    "first-report-is-a-satisfaction-required": (dict(aud="  al expects eventually: t >= 0",
+                                                    interp="interpretation\n  require al satisfaction\nend\n"), False),
     # a member that `only helps` (no plot box) is judged like any other
     "only-helps-auditor-disappointed": (dict(aud="  al expects always: [x s] < 5\n  al only helps"), True),
     "only-helps-auditor-required-satisfaction-missing": (dict(aud="  al audits only while mood == 'green'\n  al expects always: [x s] < 50\n  al only helps\n  bo expects always: [x s] < 5\n  bo only helps",
@@ -297,6 +302,54 @@ def dir_failure_play(binpath):
         shutil.rmtree(tmp, ignore_errors=True)
 
 
+IMMUTABLE_CFG = """role r
+  :pin touch keepme && chattr +i keepme
+end
+cast
+  x plays r
+end
+script
+  tempo 60ms
+  scene p entails for x: pin
+  storyline p
+end
+"""
+
+
+def immutable_artifact_play(binpath):
+    """After a play without foul the artifacts are erased; when that directory
+    operation fails (an action left a file that cannot be removed: chattr +i,
+    which needs root and a file system that supports it) the status is non-zero.
+    Skipped (None) where immutable files cannot be made."""
+    tmp = tempfile.mkdtemp(prefix="shk-c03-imm-")
+    try:
+        probe = os.path.join(tmp, "probe")
+        open(probe, "w").close()
+        if subprocess.run(["chattr", "+i", probe], stdout=subprocess.DEVNULL, stderr=subprocess.DEVNULL).returncode != 0:
+            return None
+        try:
+            os.unlink(probe)
+            return None            # the flag does not protect the file here
+        except OSError:
+            pass
+        subprocess.run(["chattr", "-i", probe], stdout=subprocess.DEVNULL, stderr=subprocess.DEVNULL)
+        os.unlink(probe)
+        with open(os.path.join(tmp, "play.cfg"), "w") as f:
+            f.write(IMMUTABLE_CFG)
+        t0 = time.time()
+        p = subprocess.run([binpath, "-o", "out", "--disable-plots", "-q", "play.cfg"], cwd=tmp, stdout=subprocess.PIPE,
+                           stderr=subprocess.STDOUT, timeout=120, text=True, errors="replace", env=dict(os.environ, SHELL="/bin/bash"))
+        pinned = any("keepme" in fs for _, _, fs in os.walk(tmp))
+        if not pinned:
+            return None            # the action could not pin its file: nothing to conclude
+        return {"name": "artifacts-cannot-be-removed", "early": False, "exit": p.returncode, "expected_nonzero": True, "foul_flag": None,
+                "wall_s": round(time.time() - t0, 2), "output_tail": p.stdout[-1500:], "config": IMMUTABLE_CFG,
+                "args": "an action makes a file of its directory immutable (chattr +i): erasing the artifacts of the clean play fails"}
+    finally:
+        subprocess.run(["chattr", "-R", "-i", tmp], stdout=subprocess.DEVNULL, stderr=subprocess.DEVNULL)
+        shutil.rmtree(tmp, ignore_errors=True)
+
+
 # The collector cannot create its csv directory (the first cleanup put a regular
 # file there): a failing directory operation, also when the play produces no
 # data point at all.
@@ -304,6 +357,9 @@ BLOCKED_CSV = {
     "csv-directory-blocked-idle-play": ("role janitor\n  cleanup test -e ../../csv || touch ../../csv\nend\ncast\n  jan plays janitor\nend\nscript\n  tempo 100ms\n  storyline ..\nend\n", True),
     "csv-directory-blocked-moods-only": ("role janitor\n  cleanup test -e ../../csv || touch ../../csv\nend\ncast\n  jan plays janitor\nend\nscript\n  tempo 100ms\n  scene a mood starts blue\n  scene b mood ends clear\n  storyline ab\nend\n", True),
     "csv-directory-blocked-with-an-action": ("role janitor\n  cleanup test -e ../../csv || touch ../../csv\n  :sweep true\nend\ncast\n  jan plays janitor\nend\nscript\n  tempo 100ms\n  scene s entails for jan: sweep\n  storyline s\nend\n", True),
+    # an actor that never acts is cleaned up at the end like the others
+    "idle-actor-second-cleanup-fails": ("role r\n  :ok true\nend\nrole janitor\n  cleanup test ! -e ../cleaned-w; rc=$?; touch ../cleaned-w; exit $rc\nend\ncast\n  x plays r\n  w plays janitor\nend\nscript\n  tempo 100ms\n  scene s entails for x: ok\n  storyline s.s\nend\n", True),
+    "idle-actor-clean": ("role r\n  :ok true\nend\nrole janitor\n  cleanup true\nend\ncast\n  x plays r\n  w plays janitor\nend\nscript\n  tempo 100ms\n  scene s entails for x: ok\n  storyline s.s\nend\n", False),
     "csv-directory-free-idle-play": ("role janitor\n  cleanup true\nend\ncast\n  jan plays janitor\nend\nscript\n  tempo 100ms\n  storyline ..\nend\n", False),
 }
 
@@ -399,9 +455,10 @@ def run(tier, seed):
         sig_futures = [ex.submit(signalled_play, bins["shakespeare"], sn) for sn in ("SIGTERM", "SIGHUP", "SIGINT")]
         up_futures = [ex.submit(upload_play, bins["shakespeare"], n) for n in UPLOADS]
         up_futures.append(ex.submit(dir_failure_play, bins["shakespeare"]))
+        up_futures.append(ex.submit(immutable_artifact_play, bins["shakespeare"]))
         plays = list(ex.map(lambda a: run_play(bins["shakespeare"], a[0], a[1]), jobs))
         sig_plays = [f.result() for f in sig_futures]
-        plays += [f.result() for f in up_futures]
+        plays += [r for r in (f.result() for f in up_futures) if r is not None]
 
     # ---- in-process: interpretation / tallies / verdict / -S through the real audition + collector
     r = audcommon.run_harness(res, bins["c03"], tier, seed)
